@@ -251,3 +251,10 @@ Theorem C20_code_shouldUpdateAlertStateToFiring_is_model : forall (window interv
   = should_fire window interval h cur.
 Proof. exact gen_shouldUpdateAlertStateToFiring_is_model. Qed.
 Print Assumptions C20_code_shouldUpdateAlertStateToFiring_is_model.
+
+Theorem C20_code_shouldSendNotification_is_model : forall (cur : astate) (nf : notif) (silence now : Z),
+  gen_shouldSendNotification (zcode (n_last_state nf))
+      (gate_over (n_cooldown nf) (n_last_sent nf) now) (gate_over silence (n_last_sent nf) now) (zcode cur)
+  = should_send cur nf silence now.
+Proof. exact gen_shouldSendNotification_is_model. Qed.
+Print Assumptions C20_code_shouldSendNotification_is_model.
